@@ -80,7 +80,7 @@ def run(ctx):
         depth = 4 if quick else (6 if timed else 7)
         for alpha in ("api", "exec"):
             jobs.append((name, cfg, ticks, depth, units[(i + ctx.seed) % len(units)], alpha, None))
-            n, dp = (150, 30) if quick else (10000, 60)
+            n, dp = (150, 30) if quick else (2000, 50)
             jobs.append((name, cfg, ticks, dp, units[(i + 1 + ctx.seed) % len(units)], alpha, "num=%d" % n))
     from concurrent.futures import ThreadPoolExecutor
     with ThreadPoolExecutor(max_workers=5) as ex:
